@@ -137,8 +137,8 @@ def worker(args, scratch):
             root.write(PKG + "/proxy-agent.json", b'{"pkg": "%d-%d"}' % (h, r.getrandbits(32)))
             root.write(PKG + "/ebpf_cgroup.o", bytes(r.getrandbits(8) for _ in range(r.randrange(1, 3000))))
             root.write(TOOL + "/azure-proxy-agent.service", b"[Unit]\nDescription=B %d\n" % r.getrandbits(32))
-            stub = ("#!/bin/sh\nsnap=\"\"\nfor f in %s; do if [ -f \"$f\" ]; then snap=\"$snap$(sha256sum \"$f\" | cut -c1-16),\"; else snap=\"$snap-,\"; fi; done\n"
-                    "echo \"$@ |$snap\" >> %s/calls.log\nexit 0\n") % (" ".join(SYS[k] for k in ("exe", "cfg", "ebpf", "unit")), STUB)
+            stub = ("#!/bin/sh\nif [ \"$1\" = stop ] && [ -f %s/stop_delay ]; then sleep $(cat %s/stop_delay); fi\nsnap=\"\"\nfor f in %s; do if [ -f \"$f\" ]; then snap=\"$snap$(sha256sum \"$f\" | cut -c1-16),\"; else snap=\"$snap-,\"; fi; done\n"
+                    "echo \"$@ |$snap\" >> %s/calls.log\nexit 0\n") % (STUB, STUB, " ".join(SYS[k] for k in ("exe", "cfg", "ebpf", "unit")), STUB)
             root.write(STUB + "/systemctl", stub.encode(), 0o755)
             pkg = {"exe": sha(root.p(PKG + "/azure-proxy-agent")), "cfg": sha(root.p(PKG + "/proxy-agent.json")), "ebpf": sha(root.p(PKG + "/ebpf_cgroup.o")), "unit": sha(root.p(TOOL + "/azure-proxy-agent.service"))}
             init = r.choice(["nothing", "installed", "installed", "installed+backup"])
@@ -161,7 +161,15 @@ def worker(args, scratch):
                         root.write(bp, b"bystander %d\n" % r.getrandbits(64))
                         bystanders[bp] = sha(root.p(bp))
             canonical = (h % 4 == 0)
+            slow_stop = args["shard"] == 0 and h == 0
+            if slow_stop:
+                # a service that takes 12 s to stop (the stand-in systemctl returns - and takes its snapshot of the files - only then): no file may be
+                # replaced before the stop has completed, however long it takes
+                root.write(STUB + "/stop_delay", b"12")
+                cnt["histories_with_a_slow_service_stop"] = cnt.get("histories_with_a_slow_service_stop", 0) + 1
             seq = [["backup"], ["install"], r.choice([["restore"], ["restore", "false"], ["restore", "true"]])] if canonical else [r.choice(COMMANDS) for _ in range(r.randrange(1, 11))]
+            if slow_stop:
+                seq, canonical = [["backup"], ["install"]], False
             baseline_upper = set(root.upper_files())
             t = tree(root)
             before_all = dict(t)
